@@ -5,7 +5,7 @@
 (* a cast / divergence) is printed for the replay on the real code;        *)
 (* Sound is the property "accepted => no crash, no divergence".            *)
 (***************************************************************************)
-EXTENDS EvalAbs, Families, Json
+EXTENDS EvalAbs, Families, Json, IOUtils
 
 CONSTANTS Positions, Shapes, Indirections
 
@@ -19,6 +19,15 @@ PrintCase ==
       o == Outcome(prog)
   IN PrintT(<<"CASE", ToJson([pos |-> pn, shape |-> sn, ind |-> ind, prog |-> prog,
                               outcome |-> o.k, site |-> o.op, variant |-> o.fn])>>)
+
+\* oracle mode: programs supplied by the driver
+FilePrograms == ndJsonDeserialize(IOEnv.PROGRAMS)
+FileInit == pn = "file" /\ sn = "" /\ ind \in {ToString(i) : i \in 1..Len(FilePrograms)}
+FileIndex == CHOOSE i \in 1..Len(FilePrograms) : ToString(i) = ind
+PrintFileCase ==
+  LET prog == FilePrograms[FileIndex]
+      o == Outcome(prog)
+  IN PrintT(<<"CASE", ToJson([idx |-> FileIndex, outcome |-> o.k, site |-> o.op, variant |-> o.fn])>>)
 
 SoundHere == Sound(Member(pn, sn, ind))
 
